@@ -13,6 +13,7 @@ Oracle: byte equality of record lines per locus; multiset equality across core c
 ##fileDate / ##commandline; each locus exactly once as an intact line.
 """
 
+import functools
 import json
 import os
 import shutil
@@ -41,7 +42,9 @@ RULE = (
 )
 ASSUMPTIONS = ["--mcmc-seed fixed per run", "the haplotype VCF must stay coordinate-sorted, so only subsets (not permutations) of its records are used"]
 PROGRAMS = ["assemble", "call", "call-exact", "call-pedigree"]
-MCMC = ["--mcmc-steps", "120", "--mcmc-burn", "60", "--mcmc-seed", "7"]
+MCMC = ["--mcmc-steps", "120", "--mcmc-burn", "60"]
+# seed 0 is the hostile value (falsy); every comparison family is run with it and with a non-zero seed
+SEEDS = (0, 7)
 WATCHDOG = 600
 
 
@@ -121,7 +124,7 @@ def build(seed, ds_id, tag, bad_locus=None, depth=(8, 16)):
     return ds
 
 
-def argv_for(ds, program, bed=None, hap=None, cores=None, extra=()):
+def argv_for(ds, program, bed=None, hap=None, cores=None, extra=(), mseed=0):
     a = [program]
     if program == "assemble":
         a += ["--targets", bed or ds.bed, "--variants", ds.vcf, "--reference", ds.fasta]
@@ -131,7 +134,7 @@ def argv_for(ds, program, bed=None, hap=None, cores=None, extra=()):
     if program == "call-pedigree":
         a += ["--sample-parents", ds.parents_file]
     if program != "call-exact":
-        a += MCMC
+        a += MCMC + ["--mcmc-seed", str(mseed)]
     if cores is not None:
         a += ["--cores", str(cores)]
     a += list(extra)
@@ -154,12 +157,14 @@ def stable_header(text):
 def run_cores(tier, seed, spec, col):
     ds = build(seed, spec["dataset"], spec["name"])
     prog = spec["program"]
+    mseed = SEEDS[(PROGRAMS.index(prog) + spec["dataset"]) % 2]
     n = len(ds.loci)
     inject = os.path.join(env.VERIF, "inject")
     base_env = {"PYTHONPATH": os.pathsep.join([inject] + os.environ.get("PYTHONPATH", "").split(os.pathsep))}
-    rc, out, err = cli.run_subprocess(argv_for(ds, prog, cores=1), timeout=WATCHDOG, extra_env=base_env)
+    rc, out, err = cli.run_subprocess(argv_for(ds, prog, cores=1, mseed=mseed), timeout=WATCHDOG, extra_env=base_env)
     col.count("subprocess_runs")
-    rep = {"dataset": spec["dataset"], "program": prog, "seed": seed}
+    rep = {"dataset": spec["dataset"], "program": prog, "seed": seed, "mcmc_seed": mseed}
+    col.add_to_set("mcmc_seeds", mseed)
     if rc != 0:
         if rc == "timeout":
             col.inconclusive_note("%s --cores 1 timed out" % prog)
@@ -180,7 +185,7 @@ def run_cores(tier, seed, spec, col):
             inj = "delay=%d:%d" % (seed * 100 + d * 7 + cores, 400)
             e = dict(base_env)
             e["MCHAP_VERIF_INJECT"] = inj
-            rc, out2, err2 = cli.run_subprocess(argv_for(ds, prog, cores=cores), timeout=WATCHDOG, extra_env=e)
+            rc, out2, err2 = cli.run_subprocess(argv_for(ds, prog, cores=cores, mseed=mseed), timeout=WATCHDOG, extra_env=e)
             col.count("subprocess_runs")
             col.add_to_set("cores", cores)
             case = dict(rep, cores=cores, inject=inj)
@@ -231,12 +236,16 @@ def run_inproc(tier, seed, spec, col):
             s += np.random.random()
         return s
 
-    for prog in spec["programs"]:
-        rep = {"dataset": spec["dataset"], "program": prog, "seed": seed}
-        out1, e1 = cli.run_inproc(argv_for(ds, prog))
+    for prog, mseed in [(p, m) for p in spec["programs"] for m in SEEDS]:
+        if prog == "call-exact" and mseed != SEEDS[0]:
+            continue
+        rep = {"dataset": spec["dataset"], "program": prog, "seed": seed, "mcmc_seed": mseed}
+        col.add_to_set("mcmc_seeds", mseed)
+        AV = functools.partial(argv_for, mseed=mseed)
+        out1, e1 = cli.run_inproc(AV(ds, prog))
         np.random.random(17)
         burn_numba(13)
-        out2, e2 = cli.run_inproc(argv_for(ds, prog))
+        out2, e2 = cli.run_inproc(AV(ds, prog))
         col.case(dict(rep, what="rerun"), nontrivial=False)
         if e1 is not None or e2 is not None:
             col.violation("program-fails-on-valid-input", "%s raised %r / %r" % (prog, e1, e2), rep)
@@ -258,13 +267,13 @@ def run_inproc(tier, seed, spec, col):
                 order = rng.permutation(len(ds.loci)).tolist() if trial == 0 else [keep[i] for i in rng.permutation(len(keep))]
                 bed = os.path.join(ds.root, "perm%d.bed" % trial)
                 datasets.write_bed(bed, [(ds.loci[i]["contig"], ds.loci[i]["start"], ds.loci[i]["stop"], ds.loci[i]["name"]) for i in order])
-                out3, e3 = cli.run_inproc(argv_for(ds, prog, bed=bed))
+                out3, e3 = cli.run_inproc(AV(ds, prog, bed=bed))
                 col.count("inproc_permuted_runs")
                 idxs = order
             else:
                 sub = os.path.join(ds.root, "sub%d.vcf" % trial)
                 hp = hapvcf.write(sub, hapvcf.render(ds.contigs, [ds.hap_records[i] for i in keep]))
-                out3, e3 = cli.run_inproc(argv_for(ds, prog, hap=hp))
+                out3, e3 = cli.run_inproc(AV(ds, prog, hap=hp))
                 idxs = keep
             col.count("inproc_subset_runs")
             case = dict(rep, what="subset", loci=idxs)
@@ -286,7 +295,7 @@ def run_inproc(tier, seed, spec, col):
         # ---- a single locus given with --region instead of a targets file
         if prog == "assemble":
             L = ds.loci[int(rng.integers(len(ds.loci)))]
-            a = [x for x in argv_for(ds, prog)]
+            a = [x for x in AV(ds, prog)]
             i = a.index("--targets")
             a[i:i + 2] = ["--region", "%s:%d-%d" % (L["contig"], L["start"], L["stop"]), "--region-id", L["name"]]
             out4, e4 = cli.run_inproc(a)
@@ -309,7 +318,7 @@ def run_inproc(tier, seed, spec, col):
         P = importlib.import_module("mchap.application." + mod).program
         with warnings.catch_warnings():
             warnings.simplefilter("error", RuntimeWarning)
-            po = P.cli(["mchap"] + argv_for(ds, prog))
+            po = P.cli(["mchap"] + AV(ds, prog))
             loci = list(po.loci())
             target = int(rng.integers(len(loci)))
             first = po.call_locus(loci[target], po.sample_bams)
